@@ -16,7 +16,8 @@ HARNESSES = [
          flags=["--unsigned-overflow-check"], timeout=900,
          cases=[dict(id="hdr512", tier="quick")]),
     dict(name="decode_header", file="decode_header.c", label="proved", defines=CT,
-         unwind=513, malloc_fail=True, timeout=1200, weight=6,
+         unwind=513, malloc_fail=True, timeout=600, weight=6,
+         nochecks=["--conversion-check"],
          cases=[dict(id="hdr512", tier="quick")]),
     dict(name="hardlink", file="hardlink.c", label="bounded(link graph nodes <= 4)",
          timeout=900, weight=8,
